@@ -286,7 +286,9 @@ class _EulerBernoulli(_GroupElem):
         lines = np.repeat(range(N), N)
         columns = np.array(list(range(N)) * N)
         for n in range(dof_n * nPe // 3):
-            P_e_pg[:, 0, lines + n * N, columns + n * N] = P[:, lines, columns]
+            # P's columns are the local axes (global = P • local), so the global dofs are
+            # mapped to local ones by P^T: the blocks are P^T (N_loc @ P^T_blocks, B_loc @ P^T_blocks)
+            P_e_pg[:, 0, lines + n * N, columns + n * N] = P[:, columns, lines]
 
         return P_e_pg
 
